@@ -556,6 +556,9 @@ func (s *State) evalIndexRangeExpression(left object.Object, leftIdx, rightIdx a
 	if l < 0 { // negative is relative to the end.
 		l = int64(num) + l
 	}
+	if l < 0 { // still before the start: clamp like the right side is clamped to the length.
+		l = 0
+	}
 	var r int64
 	if nilRight {
 		r = int64(num)
